@@ -182,23 +182,46 @@ def run(chk: Check) -> None:
     # prefer selections that stay cheap: at most 6 codemods selected
     cheap = [(sc, exp) for sc, exp in cases if all(len(e) <= 6 for e in exp) and sc["list"]]
     chk.rng.shuffle(cheap)
-    chosen = cheap[:e2e_n]
+    # the eligibility mode must follow the kind of result input: default and single-exclude runs for every input kind
+    modes = [(sc, exp) for sc, exp in cases if sc["kind"] == "exc" and len(sc["list"]) <= 1]
+    chk.rng.shuffle(modes)
+    by_inp = {}
+    for sc, exp in modes:
+        by_inp.setdefault((sc["inp"], len(sc["list"])), (sc, exp))
+    chosen = cheap[:e2e_n] + list(by_inp.values())
     scenarios = []
     for k, (sc, exp) in enumerate(chosen):
         pats = [pool[i - 1] for i in sc["list"]]
-        argv = ["{dir}", "--output", "{out}", f"--codemod-{'include' if sc['kind'] == 'inc' else 'exclude'}", ",".join(pats)]
+        argv = ["{dir}", "--output", "{out}"]
+        if pats:  # an empty list = the option is not given
+            argv += [f"--codemod-{'include' if sc['kind'] == 'inc' else 'exclude'}", ",".join(pats)]
         resfiles = {}
-        if sc["sast"]:
+        inp = sc["inp"]
+        sarif = lambda tool: {"version": "2.1.0", "runs": [{"tool": {"driver": {"name": tool, "rules": []}}, "results": []}]}
+        if inp in ("sonarIssues", "issuesAndHotspots"):
             resfiles["sonar.json"] = {"issues": []}
             argv += ["--sonar-issues-json", "{res}/sonar.json"]
+        if inp in ("hotspotsOnly", "issuesAndHotspots"):
+            resfiles["hot.json"] = {"hotspots": []}
+            argv += ["--sonar-hotspots-json", "{res}/hot.json"]
+        if inp == "sarifSemgrep":
+            resfiles["s.sarif"] = sarif("Semgrep OSS")
+            argv += ["--sarif", "{res}/s.sarif"]
+        if inp == "sarifOtherTool":
+            resfiles["o.sarif"] = sarif("Bandit")
+            argv += ["--sarif", "{res}/o.sarif"]
+        if inp == "dojoOnly":
+            resfiles["dojo.json"] = {"results": []}
+            argv += ["--defectdojo-findings-json", "{res}/dojo.json"]
         # the CLI removes literal duplicates from the list before the registry sees it: same reference outcome
         scenarios.append(
             {
                 "id": f"C17-e2e-{k}",
-                "files": {"app.py": "import os\n\nx = set([1])\nprint(os.getcwd())\n"},
+                # runs of whole eligible sets use an empty project (nothing to scan, every codemod still selected and reported)
+                "files": {"app.py": "import os\n\nx = set([1])\nprint(os.getcwd())\n"} if all(len(e) <= 6 for e in exp) else {},
                 "resfiles": resfiles,
                 "steps": [{"argv": argv, "expect": {"queues": [[ids[i - 1] for i in e] for e in exp]}, "keep_log": True}],
-                "_meta": {"kind": sc["kind"], "patterns": pats, "sast": sc["sast"]},
+                "_meta": {"kind": sc["kind"], "patterns": pats, "sast": sc["sast"], "inp": sc["inp"]},
             }
         )
     results = runner.run_many(scenarios)
@@ -221,8 +244,8 @@ def run(chk: Check) -> None:
         if rep is not None and [x["codemod"] for x in rep["results"]] != [e for e in step["trace"]["events"] if e["ev"] == "Selected"][0]["ids"]:
             v.append("report-order-differs-from-queue")
         if v:
-            sig = f"C17|e2e|{meta['kind']}|{','.join(meta['patterns'])}|sast={meta['sast']}|{';'.join(sorted(v))}"
-            chk.violation(sig, f"CLI run with codemod-{meta['kind']}={meta['patterns']} sast={meta['sast']}: {v}",
+            sig = f"C17|e2e|{meta['kind']}|{','.join(meta['patterns'])}|input={meta['inp']}|{';'.join(sorted(v))}"
+            chk.violation(sig, f"CLI run with codemod-{meta['kind']}={meta['patterns']} result input={meta['inp']}: {v}",
                           {"scenario": {k: scn[k] for k in ('files', 'resfiles', 'steps')}, "verdict": v})
     if traces:
         chk.sample({"e2e_trace_events": [e["ev"] for e in traces[0]["events"]], "argv": scenarios[0]["steps"][0]["argv"]})
